@@ -871,9 +871,11 @@ pub(super) fn fsaw_case(cx: &mut Ctx, c: &Value) {
                        if (s.parent(), s.child_base, s.is_terminal()) != w || s.is_free() != (a % 3 == 1) { fails.push(format!("CachedState::new({:?}) reads back {:?}", w, (s.parent(), s.child_base, s.is_terminal()))); }
                        s.mark_free(); if !s.is_free() || (s.parent(), s.child_base, s.is_terminal()) != w { fails.push("mark_free disturbed the state word".into()); }
                        s.mark_used(); if s.is_free() || (s.parent(), s.child_base, s.is_terminal()) != w { fails.push("mark_used disturbed the state word".into()); } }
-                _ => { let mut z = ZeroPathData::new(); let mut all: Vec<u8> = vec![]; let seg = (b % 300) as usize;
-                       for i in 0..a.min(400) { let d = gen_file(i + b, seg as u64);
-                           match z.add_segment(&d) { Ok(()) => { if seg > 255 { fails.push(format!("add_segment accepted {} bytes", seg)); } all.extend_from_slice(&d); } Err(_) => { if seg <= 255 && all.len() + seg <= u16::MAX as usize { fails.push(format!("add_segment refused {} bytes at a total of {}", seg, all.len())); } break; } } }
+                _ => { let mut z = ZeroPathData::new(); let mut all: Vec<u8> = vec![]; let seg0 = (b % 300) as usize;
+                       // a refused segment is not the end: one-byte segments follow it (they fit until the total is used up), then the full size again
+                       let mut refusals = 0usize; let mut after_refusal = 0usize;
+                       for i in 0..a.min(400) { let seg = if after_refusal > 0 { after_refusal -= 1; 1 } else { seg0 }; let d = gen_file(i + b, seg as u64);
+                           match z.add_segment(&d) { Ok(()) => { if seg > 255 { fails.push(format!("add_segment accepted {} bytes", seg)); } all.extend_from_slice(&d); } Err(_) => { if seg <= 255 && all.len() + seg <= u16::MAX as usize { fails.push(format!("add_segment refused {} bytes at a total of {}", seg, all.len())); } refusals += 1; after_refusal = 2; if refusals > 3 { break; } } } }
                        if z.get_full_path() != all { fails.push(format!("ZeroPathData::get_full_path returns {} bytes, {} were added", z.get_full_path().len(), all.len())); }
                        if z.total_length as usize != all.len() { fails.push(format!("ZeroPathData::total_length = {}, {} bytes were added", z.total_length, all.len())); } }
             }
